@@ -14,7 +14,9 @@ import (
 	"go/constant"
 	"go/token"
 	"go/types"
+	"math"
 	"sort"
+	"strconv"
 	"strings"
 
 	"golang.org/x/tools/go/callgraph"
@@ -227,12 +229,50 @@ func argsMatch(c *ssa.CallCommon, pats []string) bool {
 	return true
 }
 
+// callMatches: the call is to callee with matching arguments, either as it is
+// written or in its canonical form: writing a string is writing its bytes
+// (io.WriteString(w, s) = w.Write([]byte(s)), b.WriteString(s) =
+// b.Write([]byte(s)), for any writer).
+func callMatches(c *ssa.CallCommon, callee string, pats []string) bool {
+	name := prov.CalleeName(c)
+	if prov.Match(callee, name) && argsMatch(c, pats) {
+		return true
+	}
+	var alias string
+	var terms []string
+	switch {
+	case name == "io.WriteString" && len(c.Args) == 2:
+		alias = "invoke:io.Writer.Write"
+		terms = []string{prov.Of(c.Args[0]), "conv(" + prov.Of(c.Args[1]) + ")"}
+	case strings.HasSuffix(name, ").WriteString") && len(c.Args) == 2 && !c.IsInvoke():
+		alias = strings.TrimSuffix(name, "String")
+		terms = []string{prov.Of(c.Args[0]), "conv(" + prov.Of(c.Args[1]) + ")"}
+	case name == "invoke:io.StringWriter.WriteString" && len(c.Args) == 1:
+		alias = "invoke:io.Writer.Write"
+		terms = []string{prov.Of(c.Value), "conv(" + prov.Of(c.Args[0]) + ")"}
+	default:
+		return false
+	}
+	if !prov.Match(callee, alias) {
+		return false
+	}
+	for i, p := range pats {
+		if p == "" || p == "*" {
+			continue
+		}
+		if i >= len(terms) || !prov.Match(p, terms[i]) {
+			return false
+		}
+	}
+	return true
+}
+
 // CallOK: the call to callee (resolved name, glob allowed) returned a nil
 // error; args are provenance patterns for receiver+arguments ("" = any).
 func CallOK(key, callee string, args ...string) Gate {
 	return Gate{Key: key, Desc: "ok(" + callee + "(" + strings.Join(args, ",") + "))",
 		Edge: func(f Fact) bool {
-			return f.Kind == FErrNil && prov.Match(callee, prov.CalleeName(&f.Call.Call)) && argsMatch(&f.Call.Call, args)
+			return f.Kind == FErrNil && callMatches(&f.Call.Call, callee, args)
 		}}
 }
 
@@ -241,7 +281,7 @@ func CallBool(key, callee string, want bool, args ...string) Gate {
 	return Gate{Key: key, Desc: fmt.Sprintf("%s(%s) == %v", callee, strings.Join(args, ","), want),
 		Edge: func(f Fact) bool {
 			return f.Kind == FBool && f.Call != nil && f.Val == want &&
-				prov.Match(callee, prov.CalleeName(&f.Call.Call)) && argsMatch(&f.Call.Call, args)
+				callMatches(&f.Call.Call, callee, args)
 		}}
 }
 
@@ -257,11 +297,93 @@ func Cmp(key, x string, op token.Token, y string) Gate {
 			if f.Op == op && prov.Match(x, prov.Of(f.X)) && prov.Match(y, prov.Of(f.Y)) {
 				return true
 			}
-			if f.Op == swap(op) && (op != token.EQL && op != token.NEQ || true) && prov.Match(x, prov.Of(f.Y)) && prov.Match(y, prov.Of(f.X)) {
+			if f.Op == swap(op) && prov.Match(x, prov.Of(f.Y)) && prov.Match(y, prov.Of(f.X)) {
 				return true
+			}
+			// the same integer set written with another operator: x < 2 / x <= 1,
+			// len(s) == 0 / len(s) < 1, n != 0 / n > 0 (non-negative n)
+			if want, ok := constOfPattern(y); ok {
+				if k, ok := f.Y.(*ssa.Const); ok && k.Value != nil && k.Value.Kind() == constant.Int && prov.Match(x, prov.Of(f.X)) {
+					if got, exact := constant.Int64Val(k.Value); exact && sameIntSet(op, want, f.Op, got, nonNegative(f.X)) {
+						return true
+					}
+				}
+				if k, ok := f.X.(*ssa.Const); ok && k.Value != nil && k.Value.Kind() == constant.Int && prov.Match(x, prov.Of(f.Y)) {
+					if got, exact := constant.Int64Val(k.Value); exact && sameIntSet(op, want, swap(f.Op), got, nonNegative(f.Y)) {
+						return true
+					}
+				}
 			}
 			return false
 		}}
+}
+
+func constOfPattern(p string) (int64, bool) {
+	if !strings.HasPrefix(p, "const:") {
+		return 0, false
+	}
+	n, err := strconv.ParseInt(strings.TrimPrefix(p, "const:"), 10, 64)
+	return n, err == nil
+}
+
+// nonNegative: v is an unsigned integer or a length.
+func nonNegative(v ssa.Value) bool {
+	if b, ok := v.Type().Underlying().(*types.Basic); ok && b.Info()&types.IsUnsigned != 0 {
+		return true
+	}
+	if c, ok := v.(*ssa.Call); ok {
+		if bi, ok := c.Call.Value.(*ssa.Builtin); ok && (bi.Name() == "len" || bi.Name() == "cap") {
+			return true
+		}
+	}
+	return false
+}
+
+// sameIntSet: {v | v op1 c1} == {v | v op2 c2} over the integers (over the
+// non-negative integers when nonneg).
+func sameIntSet(op1 token.Token, c1 int64, op2 token.Token, c2 int64, nonneg bool) bool {
+	type iv struct {
+		kind int // 0: v < hi ; 1: v > lo ; 2: v == c ; 3: v != c
+		c    int64
+	}
+	norm := func(op token.Token, c int64) (iv, bool) {
+		switch op {
+		case token.LSS:
+			if nonneg && c == 1 {
+				return iv{2, 0}, true
+			}
+			return iv{0, c}, true
+		case token.LEQ:
+			if c == math.MaxInt64 {
+				return iv{}, false
+			}
+			if nonneg && c == 0 {
+				return iv{2, 0}, true
+			}
+			return iv{0, c + 1}, true
+		case token.GTR:
+			if nonneg && c == 0 {
+				return iv{3, 0}, true
+			}
+			return iv{1, c}, true
+		case token.GEQ:
+			if c == math.MinInt64 {
+				return iv{}, false
+			}
+			if nonneg && c == 1 {
+				return iv{3, 0}, true
+			}
+			return iv{1, c - 1}, true
+		case token.EQL:
+			return iv{2, c}, true
+		case token.NEQ:
+			return iv{3, c}, true
+		}
+		return iv{}, false
+	}
+	a, ok1 := norm(op1, c1)
+	b, ok2 := norm(op2, c2)
+	return ok1 && ok2 && a == b
 }
 
 // BoolVal: a bool value with the given provenance equals want.
@@ -280,7 +402,7 @@ func CallInstr(key, callee string, args ...string) Gate {
 			if !ok {
 				return false
 			}
-			return prov.Match(callee, prov.CalleeName(c.Common())) && argsMatch(c.Common(), args)
+			return callMatches(c.Common(), callee, args)
 		}}
 }
 
@@ -365,6 +487,11 @@ type Ctx struct {
 	CG     *callgraph.Graph
 	Assume []Assumption
 	memo   map[string]bool
+	noPhi      bool
+	reachNoPhi map[*ssa.Function]map[*ssa.BasicBlock]bool
+	// substKey identifies the active parameter substitution (callee examined
+	// on behalf of one call site), part of the memo key
+	substKey string
 	active map[string]bool
 	// Steps counts CFG edges examined (reported as evidence).
 	Steps int
@@ -523,7 +650,7 @@ func (c *Ctx) fold(cond ssa.Value) (bool, bool) {
 // Established reports whether gate g holds on every path of fn from entry to
 // an exit with outcome o.  The witness is a path avoiding g (nil if none).
 func (c *Ctx) Established(fn *ssa.Function, o Outcome, g Gate) (bool, []string) {
-	key := load.FuncName(fn) + "|" + o.String() + "|" + g.Key + "|" + c.assumeKey()
+	key := load.FuncName(fn) + "|" + o.String() + "|" + g.Key + "|" + c.assumeKey() + "|" + c.substKey
 	if v, ok := c.memo[key]; ok {
 		return v, nil
 	}
@@ -669,7 +796,7 @@ func (c *Ctx) blockEstablishes(b *ssa.BasicBlock, g Gate) bool {
 			}
 			all := true
 			for _, cal := range callees {
-				if ok, _ := c.Established(cal, Outcome{Kind: AnyReturn}, g); !ok {
+				if !c.calleeEstablishes(call, cal, Outcome{Kind: AnyReturn}, g) {
 					all = false
 					break
 				}
@@ -680,6 +807,28 @@ func (c *Ctx) blockEstablishes(b *ssa.BasicBlock, g Gate) bool {
 		}
 	}
 	return false
+}
+
+// calleeEstablishes: callee establishes g on every path to outcome o, first
+// with the gate's operands read in the callee's own terms, then with the
+// callee's parameters standing for the arguments of this call site (a check
+// moved into a helper keeps its operands).
+func (c *Ctx) calleeEstablishes(call *ssa.Call, cal *ssa.Function, o Outcome, g Gate) bool {
+	if ok, _ := c.Established(cal, o, g); ok {
+		return true
+	}
+	// only for functions the rule tables do not know (a check moved into a new
+	// helper): the tables describe every known function in its own terms
+	if call.Call.IsInvoke() || len(call.Call.Args) != len(cal.Params) || prov.SubstDepth() > 3 || prov.KnownFunction(cal) {
+		return false
+	}
+	saved := c.substKey
+	sig := prov.PushSubst(cal, &call.Call)
+	c.substKey = saved + ">" + load.FuncName(cal) + "(" + sig + ")"
+	ok, _ := c.Established(cal, o, g)
+	prov.PopSubst()
+	c.substKey = saved
+	return ok
 }
 
 // allModule: every possible callee of the call is a module function with a body.
@@ -739,7 +888,7 @@ func (c *Ctx) factsEstablish(facts []Fact, g Gate) bool {
 		}
 		all := true
 		for _, cal := range c.P.ModuleCallees(c.CG, call) {
-			if ok, _ := c.Established(cal, o, g); !ok {
+			if !c.calleeEstablishes(call, cal, o, g) {
 				all = false
 				break
 			}
@@ -1369,6 +1518,16 @@ func (c *Ctx) dependsOnAssumption(v ssa.Value, d int) bool {
 		return c.dependsOnAssumption(x.X, d+1)
 	case *ssa.ChangeType:
 		return c.dependsOnAssumption(x.X, d+1)
+	case *ssa.Phi:
+		// the assumptions select among its incoming edges
+		if c.noPhi {
+			return false
+		}
+		for i, ed := range x.Edges {
+			if !c.edgeFeasible(x.Block().Preds[i], x.Block()) || c.dependsOnAssumption(ed, d+1) {
+				return true
+			}
+		}
 	}
 	return false
 }
@@ -1391,6 +1550,32 @@ func (c *Ctx) evalInt(v ssa.Value, d int) (constant.Value, bool) {
 		return c.evalInt(x.X, d+1)
 	case *ssa.ChangeType:
 		return c.evalInt(x.X, d+1)
+	case *ssa.Phi:
+		// the value of a phi all of whose feasible incoming edges carry the
+		// same constant (feasibility is decided without this rule, which can
+		// only keep more edges: sound)
+		if c.noPhi {
+			return nil, false
+		}
+		var got constant.Value
+		n := 0
+		for i, ed := range x.Edges {
+			if !c.edgeFeasible(x.Block().Preds[i], x.Block()) {
+				continue
+			}
+			val, ok := c.evalInt(ed, d+1)
+			if !ok {
+				return nil, false
+			}
+			if n > 0 && !constant.Compare(got, token.EQL, val) {
+				return nil, false
+			}
+			got = val
+			n++
+		}
+		if n > 0 {
+			return got, true
+		}
 	case *ssa.BinOp:
 		l, ok1 := c.evalInt(x.X, d+1)
 		r, ok2 := c.evalInt(x.Y, d+1)
@@ -1415,6 +1600,36 @@ func (c *Ctx) evalInt(v ssa.Value, d int) (constant.Value, bool) {
 		}
 	}
 	return nil, false
+}
+
+// edgeFeasible: the CFG edge pred -> b can be taken under the assumptions
+// (pred reachable from the entry and the edge not folded away), computed
+// without phi evaluation.
+func (c *Ctx) edgeFeasible(pred, b *ssa.BasicBlock) bool {
+	saved := c.noPhi
+	c.noPhi = true
+	defer func() { c.noPhi = saved }()
+	fn := pred.Parent()
+	if c.reachNoPhi == nil {
+		c.reachNoPhi = map[*ssa.Function]map[*ssa.BasicBlock]bool{}
+	}
+	reach, ok := c.reachNoPhi[fn]
+	if !ok {
+		reach = map[*ssa.BasicBlock]bool{}
+		for _, x := range c.ReachableBlocks(fn) {
+			reach[x] = true
+		}
+		c.reachNoPhi[fn] = reach
+	}
+	if !reach[pred] {
+		return false
+	}
+	for _, s := range c.succsUnder(pred) {
+		if s == b {
+			return true
+		}
+	}
+	return false
 }
 
 // succsUnder: the successors of b that are feasible under the assumptions.
@@ -1471,75 +1686,10 @@ func (g Gate) WithInstrIn(extra func(ssa.Instruction) bool) Gate {
 	return g
 }
 
-// EvalValue evaluates integer value v of fn under the assumptions; a phi is
-// resolved when exactly one of its incoming edges is feasible.
+// EvalValue evaluates integer value v of fn under the assumptions (constant
+// propagation; a phi is resolved when its feasible incoming edges agree).
 func (c *Ctx) EvalValue(fn *ssa.Function, v ssa.Value) (string, bool) {
-	reach := map[*ssa.BasicBlock]bool{}
-	for _, b := range c.ReachableBlocks(fn) {
-		reach[b] = true
-	}
-	var ev func(v ssa.Value, d int) (constant.Value, bool)
-	ev = func(v ssa.Value, d int) (constant.Value, bool) {
-		if d > 10 {
-			return nil, false
-		}
-		if ph, ok := v.(*ssa.Phi); ok {
-			var got constant.Value
-			n := 0
-			for i, ed := range ph.Edges {
-				pb := ph.Block().Preds[i]
-				if !reach[pb] {
-					continue
-				}
-				feasible := false
-				for _, s := range c.succsUnder(pb) {
-					if s == ph.Block() {
-						feasible = true
-					}
-				}
-				if !feasible {
-					continue
-				}
-				val, ok := ev(ed, d+1)
-				if !ok {
-					return nil, false
-				}
-				if n > 0 && !constant.Compare(got, token.EQL, val) {
-					return nil, false
-				}
-				got = val
-				n++
-			}
-			return got, n > 0
-		}
-		if av, ok := c.assumedInt(v); ok {
-			return av, true
-		}
-		switch x := v.(type) {
-		case *ssa.Const:
-			if x.Value != nil && x.Value.Kind() == constant.Int {
-				return x.Value, true
-			}
-		case *ssa.Convert:
-			return ev(x.X, d+1)
-		case *ssa.BinOp:
-			l, ok1 := ev(x.X, d+1)
-			r, ok2 := ev(x.Y, d+1)
-			if !ok1 || !ok2 {
-				return nil, false
-			}
-			switch x.Op {
-			case token.ADD, token.SUB, token.MUL:
-				return constant.BinaryOp(l, x.Op, r), true
-			case token.QUO:
-				if constant.Sign(r) != 0 {
-					return constant.BinaryOp(l, token.QUO_ASSIGN, r), true
-				}
-			}
-		}
-		return nil, false
-	}
-	val, ok := ev(v, 0)
+	val, ok := c.evalInt(v, 0)
 	if !ok {
 		return "", false
 	}
